@@ -474,6 +474,18 @@ def _try_lock_is_only_a_fast_path(ctx, s, lid):
     return True
 
 
+def _new_uncalled_api(ctx, body):
+    """a public inherent method that the pinned revision does not have (mirq/known_fns.json) and
+    that no body of the crate calls: an accessor added next to the existing API"""
+    from mirq.inline import known_functions, strip_generics
+    if body.is_closure() or body.j.get("impl_trait") or str(body.j.get("vis")) != "Public":
+        return False
+    known = known_functions()
+    if not known or strip_generics(body.path) in known:
+        return False
+    return not ctx.prog.callers(body)
+
+
 def lk0_blocking_acquisitions(ctx, rep):
     """every acquisition of a lock of the library waits for it (`lock()`, `read()`, `write()`):
     a `try_lock` turns contention with another thread - which every property quantifies over -
@@ -502,6 +514,10 @@ def lk0_blocking_acquisitions(ctx, rep):
             elif _try_lock_is_only_a_fast_path(ctx, s, lid):
                 bad -= 1
                 rep.ok(R, "blocking-acquisition:%s:%s" % (lid, short(s.body.path)), s.where, "%s on %s is a fast path: every path on which it fails goes on to the blocking acquisition of the same lock" % (s.ck.split("::")[-1], lid))
+                continue
+            elif _new_uncalled_api(ctx, s.body):
+                bad -= 1
+                rep.ok(R, "blocking-acquisition:%s:%s" % (lid, short(s.body.path)), s.where, "%s on %s in a public method the pinned revision does not have and nothing in the crate calls: no existing operation can be skipped by it" % (s.ck.split("::")[-1], lid))
                 continue
             rep.bad(R, "blocking-acquisition:%s:%s" % (lid, short(s.body.path)), s.where,
                     "%s on %s: when another thread holds the lock the operation is skipped or (unwrapped) the calling thread panics" % (s.ck.split("::")[-1], lid))
